@@ -125,6 +125,26 @@ impl VM {
             } else {
                 (bytecode_len, constants_len, constants_len)
             };
+            // upvalue reads go through `upvalues_ptr`: no extent is known for it unless it is the running frame's own
+            // vector and that vector still belongs to a closure in the heap
+            #[cfg(vbxq_aelys_lang_verif)]
+            let verif_locals_ok = !verif_on
+                || self.frames.get(current_frame_idx).is_some_and(|f| {
+                    f.base == base
+                        && f.bytecode_ptr == bytecode_ptr
+                        && f.bytecode_len == bytecode_len
+                        && f.constants_ptr == constants_ptr
+                        && f.constants_len == constants_len
+                        && f.upvalues_ptr == upvalues_ptr
+                        && f.upvalues_len == upvalues_len
+                });
+            #[cfg(vbxq_aelys_lang_verif)]
+            #[allow(unused_variables)]
+            let verif_ul = if !verif_on || (verif_locals_ok && self.verif_upvalues_owner_alive(upvalues_ptr, upvalues_len)) {
+                upvalues_len
+            } else {
+                0
+            };
             #[cfg(vbxq_aelys_lang_verif)]
             macro_rules! verif_site {
                 ($id:expr, $idx:expr, $len:expr) => {
@@ -167,6 +187,7 @@ impl VM {
                     self.verif_frame_record_ok(current_frame_idx) as u64,
                     current_frame_idx as u64,
                 );
+                crate::verif::site(crate::verif_sites::SNAP_LOCALS, verif_locals_ok as u64, current_frame_idx as u64);
                 crate::verif::site(
                     crate::verif_sites::SNAP_UPOWNER,
                     self.verif_upvalues_owner_alive(upvalues_ptr, upvalues_len) as u64,
